@@ -94,3 +94,25 @@ package intconv
 //@ func BigIntToBytes(i) (bs)
 //@   trusted
 //@   pure
+//@   opt verify-body
+//@   opt no-callee-pre
+//@   nosafety
+//@   arith int
+//@   ensures [body:zero] i == nil || big(i) == 0 ==> len(bs) == 1 && bs[0] == 0
+//@   ensures [body:positive] i != nil && big(i) > 0 && big_bitlen(big(i)) % 8 != 0 ==> seq(bs) == big_bytes(big(i))
+//@   ensures [body:positive_pad] i != nil && big(i) > 0 && big_bitlen(big(i)) % 8 == 0 ==> len(bs) == big_bitlen(big(i)) / 8 + 1 && bs[0] == 0
+//@   ensures [body:negative] i != nil && big(i) < 0 && BigIntOne != nil && old(allocated(BigIntOne)) && big(BigIntOne) == 1 ==> seq(bs) == big_bytes(bpow2((big_bitlen(big(i) + 1) + 8) / 8 * 8) + big(i))
+
+// C24: the JSON form of a big integer is the hex number of its sign and magnitude bytes - for every
+// magnitude (no shortcut through a machine word)
+//@ property C24
+//@ smt all (declare-fun hexnum (Bool BSeq) Str)
+//@ func encodeHexNumber(neg, b) (s)
+//@   trusted
+//@   pure
+//@   ensures s == hexnum(neg, seq(b))
+//@ func FormatBigInt(i) (s)
+//@   arith int
+//@   pure
+//@   requires i != nil
+//@   ensures [format] s == hexnum(big(i) < 0, big_bytes(big(i)))
